@@ -1100,10 +1100,16 @@ def rule_halo_refined(w):
             key = "%s/%s" % (short(fn), e.name)
             arg = strip(e.node["a"][1])
             # unwrap moves / unique_ptr conversions
-            for _ in range(4):
+            for _ in range(6):
                 if arg is not None and arg.get("k") in ("Construct", "TempObj", "Call") and len(arg.get("a", [])) == 1 and \
                         (arg.get("k") != "Call" or (arg.get("callee") or "") in ("std::move", "std::forward")):
                     arg = strip(arg["a"][0])
+                elif arg is not None and arg.get("k") == "Ref" and arg.get("dk") == "local" and not fk.mut.get(arg.get("d")):
+                    # a never re-assigned local holding the part (named temporary, by-value parameter of an inlined helper / closure): its initialiser
+                    v0 = fk.locals.get(arg.get("d"))
+                    if v0 is None or v0.get("init") is None or v0.get("ref") or v0.get("param"):
+                        break
+                    arg = strip(v0["init"])
             loops = [f for f in e.frames if f.kind == "loop"]
             lp0 = loops[0].loop if len(loops) == 1 else None
             # range-based for over the map, or the iterator loop `for(it = map.begin(); it != map.end(); ++it)` over it
@@ -1111,6 +1117,17 @@ def rule_halo_refined(w):
                 ck.incomplete("E7.halo-refined", "%s: %s is not called from a loop over the node's mesh-part map" % (key, e.name))
                 continue
             elem = lp0.var
+            # the map that is walked and the action agree: halos are added as halos, patch mesh parts as patches
+            src = lp0.canon or ""
+            m_src = re.search(r"\._(halos|patches)\b", src)
+            skey = "%s/parts-of-_%s" % (key, m_src.group(1)) if m_src else None
+            if m_src and skey not in seen:
+                seen.add(skey)
+                want_src = "halos" if e.name == "add_halo" else "patches"
+                ck.ob("E7.halo-refined", skey, m_src.group(1) == want_src,
+                      ("the refined parts of %s are handed to %s" % (src, e.name)) if m_src.group(1) == want_src else
+                      "the parts of the map _%s are handed to %s(): the fine node receives them as %s and its own _%s map stays empty (halo exchange / patch bookkeeping of the refined level "
+                      "use the wrong map)" % (m_src.group(1), e.name, "halos" if e.name == "add_halo" else "patch mesh parts", m_src.group(1)), fn.file, e.node.get("l"))
 
             def from_elem(expr, depth=0):
                 """the expression is built from the loop element (also through reference locals / bound parameters of an inlined helper)"""
@@ -1679,7 +1696,8 @@ def run(tier):
             "in every function that recurses to the lower level, the lower-level call and every state-changing call of the own level lie on EVERY path (CFG must-pass); "
             "a call in the short-circuited operand of ||/&& or behind an early return leaves that dimension's lists unbuilt", 40)
     ck.rule("E7.halo-refined", "RootMeshNode::refine_unique hands every existing halo / patch mesh part to StandardRefinery<MeshPart>; a copy instead of a refinement is only "
-            "admissible under get_num_entities(1) == 0 (no edges), for every shape dimension the driver instantiates (2D and 3D)", 8)
+            "admissible under get_num_entities(1) == 0 (no edges), for every shape dimension the driver instantiates (2D and 3D); the map that is walked and the action agree "
+            "(parts of _halos go to add_halo, parts of _patches to add_patch)", 8)
     ck.rule("E7.rekey-fresh", "RootMeshNode::rename_halos moves every halo into a fresh map that then replaces _halos; re-inserting into _halos itself with a dropped "
             "insertion result loses a halo whenever a new rank equals the old rank of a halo not yet renamed (rank swaps)", 1)
     ck.rule("E7.parti-retry", "PartiIterative's centre search repeats when a cell was not reached: the loop flag can become true inside the loop "
